@@ -323,7 +323,7 @@ def get_xlsform_case(ctx, kind: str, text: str, channel: str, file_type, stem: s
             py = {"outcome": "ok", "book": sorted(book_json(book)), "stem": dd.fallback_form_name}
         except PyXFormError:
             py = {"outcome": "readError"}
-        except (KeyError, IndexError, TypeError, AttributeError) as e:
+        except Exception as e:  # noqa: BLE001 - any other exception is an outcome to compare, not a harness error
             py = {"outcome": type(e).__name__}
     finally:
         cleanup()
